@@ -542,6 +542,14 @@ func runStress(k int, sc Scn, r *vh.Rand) (res Res) {
 				defer wg.Done()
 				<-start
 				call(func() {
+					if sc.Variant == "chanwake" && j == 0 {
+						// a channel-mode connection stops (conn.stop -> chanWake) while the notice is handled
+						for n := 0; n < 200000 && c2.VerifC16State(s)&stClosed == 0; n++ {
+							c2.VerifC16ChanWake(s)
+							c2.VerifC16WakeDrain(s)
+						}
+						return
+					}
 					if sc.Variant == "close-vs-shutdown" && j == 0 {
 						// the operator closes the session while the client's notice is handled
 						for c2.VerifC16State(s)&stShutWait == 0 && c2.VerifC16State(s)&stClosed == 0 {
@@ -903,6 +911,67 @@ func runReplace(k int, sc Scn, r *vh.Rand) (res Res) {
 	return res
 }
 
+// runReplaceStorm: several Listeners are replaced over and over (successfully) while the
+// processors are kept busy, so that the Replace goroutine is preempted between its steps; the
+// accept threads follow the swaps.  A nil socket dereference in an accept thread kills the
+// child (observed by the parent).
+func runReplaceStorm(k int, sc Scn, r *vh.Rand) (res Res) {
+	res.K, res.Returned, res.Extra = k, true, map[string]int{}
+	base := runtime.NumGoroutine()
+	srv := c2.NewServer(logx.NOP)
+	srv.Keys.Fill()
+	var (
+		stop uint32
+		wg   sync.WaitGroup
+		ls   []*c2.Listener
+	)
+	for i := 0; i < 8; i++ {
+		l, err := srv.Listen(fmt.Sprintf("c16q%d", i), "127.0.0.1:0", cfg.Static{L: com.TCP})
+		if err != nil {
+			panic("listen: " + err.Error())
+		}
+		ls = append(ls, l)
+	}
+	for i := 0; i < 2*runtime.NumCPU(); i++ {
+		go func() {
+			for x := 0; atomic.LoadUint32(&stop) == 0; x++ {
+				if x&0xFFF == 0 {
+					runtime.Gosched()
+				}
+			}
+		}()
+	}
+	for _, l := range ls {
+		wg.Add(1)
+		go func(l *c2.Listener) {
+			defer wg.Done()
+			defer func() { recover() }()
+			for n := 0; n < sc.Pairs; n++ {
+				if l.Replace("127.0.0.1:0", nil) != nil {
+					return
+				}
+			}
+		}(l)
+	}
+	done := make(chan struct{})
+	go func() { wg.Wait(); close(done) }()
+	if !waitCh(done, 60*time.Second) {
+		res.Returned = false
+		res.Fails = append(res.Fails, failRec{"Listener.Replace calls did not return within 60 s", "replace-storm-hang"})
+	}
+	atomic.StoreUint32(&stop, 1)
+	cl := make(chan struct{})
+	go func() { srv.Close(); close(cl) }()
+	if !waitCh(cl, 5*time.Second) {
+		res.Returned = false
+		res.Fails = append(res.Fails, failRec{"Server.Close did not return within 5 s after the Replace storm", "replace-storm-close-hang"})
+	}
+	if n := settleGoroutines(base, 3*time.Second); n > base && res.Returned {
+		res.Fails = append(res.Fails, failRec{fmt.Sprintf("goroutines did not return to the baseline after the Replace storm: %d > %d", n, base), "goroutine-baseline-replace-storm"})
+	}
+	return res
+}
+
 // ---------------------------------------------------------------- scenario generation
 
 var instants = []string{"registered", "idle", "queued-client", "queued-server", "queued-both", "fragments", "mid-exchange"}
@@ -933,6 +1002,7 @@ func gen(r *vh.Rand, tier string) []Scn {
 	add(Scn{Kind: "stress", Variant: "pair", Pairs: 3000})
 	add(Scn{Kind: "stress", Variant: "quad", Pairs: 1000})
 	add(Scn{Kind: "stress", Variant: "close-vs-shutdown", Pairs: 5000})
+	add(Scn{Kind: "stress", Variant: "chanwake", Pairs: 3000})
 	rr := 400
 	if tier == "thorough" {
 		rr = 6000
@@ -964,6 +1034,7 @@ func gen(r *vh.Rand, tier string) []Scn {
 		s2.DelayUs = []int{r.Intn(200), r.Intn(200)}
 		add(s2)
 	}
+	add(Scn{Kind: "replace-storm", Instant: "listener", Pairs: 40})
 	add(Scn{Kind: "fresh", Variant: "never-listened", Phases: [][]int{{cSrvClose}}})
 	add(Scn{Kind: "fresh", Variant: "never-listened", Phases: [][]int{{cSrvClose, cSrvClose, cSrvClose, cSrvClose}, {cSrvClose}}})
 	add(Scn{Kind: "fresh", Variant: "listen-failed", Phases: [][]int{{cSrvClose}}})
@@ -1110,6 +1181,8 @@ func childMain(file string, from int, seed uint64) {
 			res = runFresh(k, scs[k], r)
 		} else if scs[k].Kind == "replace" {
 			res = runReplace(k, scs[k], r)
+		} else if scs[k].Kind == "replace-storm" {
+			res = runReplaceStorm(k, scs[k], r)
 		} else {
 			res = runE2E(k, scs[k], r)
 		}
@@ -1263,11 +1336,11 @@ func main() {
 					break
 				}
 			}
-			if len(msg) > 2500 {
-				msg = msg[:2500]
+			if len(msg) > 1200 {
+				msg = msg[:1200]
 			}
 			results[cur] = &Res{K: cur, Panic: true, PanicMsg: msg, Returned: false,
-				Fails: []failRec{{"the process died during the scenario: " + first, "fatal-" + kind + "-at-" + site}}}
+				Fails: []failRec{{"the process died during the scenario: " + first + " || " + strings.Join(strings.Fields(msg), " "), "fatal-" + kind + "-at-" + site}}}
 			next = cur + 1
 			crashes++
 			if crashes > 20 {
@@ -1293,7 +1366,7 @@ func main() {
 		if res.PanicMsg != "" {
 			desc["panic_msg"] = res.PanicMsg
 		}
-		nontrivial := len(sc.Phases) > 0 || sc.Kind == "stress" || sc.Kind == "remove-race"
+		nontrivial := len(sc.Phases) > 0 || sc.Kind == "stress" || sc.Kind == "remove-race" || sc.Kind == "replace-storm"
 		if sc.Kind == "e2e" && sc.Compare && !res.NoCompare && len(res.Final) == 27 {
 			term := fmt.Sprintf("CRun %s %s %s true %s %s %s %s %s", coqBool(sc.Cpk), coqBool(sc.Spk), coqBool(sc.Chm), coqBool(sc.Cbk),
 				phasesCoq(sc.Phases), coqBool(res.Panic), coqBool(res.Returned), vh.ZList64(res.Final))
@@ -1307,7 +1380,7 @@ func main() {
 			return true
 		}() {
 			out.Add(fmt.Sprintf("CLsn %s %s %s %s", phasesCoq(sc.Phases), coqBool(res.Panic), coqBool(res.Returned), vh.ZList64(res.Final)), classOf(sc), nontrivial, desc)
-		} else if sc.Kind == "stress" && res.Returned {
+		} else if sc.Kind == "stress" && res.Returned && sc.Variant != "chanwake" {
 			// the model runs one racing group (the calls of the variant) under the round-robin schedule
 			calls := map[string][]int64{"pair": {7, 7}, "quad": {7, 7, 7, 7}, "close-vs-shutdown": {7, 4}}[sc.Variant]
 			desc["all_closed"] = res.AllClosed
